@@ -31,6 +31,11 @@ class Model:
                     self.tls_closure[cb.id] = key
                 self.tls_sites.append((b, bi, t, key, cb.id if cb else None))
 
+    def registries(self):
+        """thread-local keys whose payload is RefCell<HashMap<usize, _>> (the id-keyed registries), identified by type"""
+        return sorted(k for k, p in self.tls_keys.items()
+                      if p and p.startswith("std::cell::RefCell<std::collections::HashMap<usize, "))
+
     def upvar_expr(self, closure_body, idx):
         """provenance (in the creating body) of the idx-th capture of a closure: (parent body, expr)"""
         c = self.creation.get(closure_body.id)
